@@ -17,11 +17,12 @@ class TooManyPaths(Exception):
 DEPTH = 1
 
 
-def paths(f, unroll=None, cap=20000):
+def paths(f, unroll=None, cap=20000, start=None):
+    """syntactic paths from the entry block (or from block `start`, e.g. an exception handler) to an end of the function"""
     if unroll is None:
         unroll = DEPTH
     out = []
-    stack = [(f.entry, [], {})]
+    stack = [(f.entry if start is None else start, [], {})]
     while stack:
         b, trail, visits = stack.pop()
         if b == f.exit:
